@@ -801,6 +801,58 @@ func runC02(c *ctx) {
 			}
 		}
 	}
+	// round 10: an incomplete wide list is asked for its bytes (nothing comes back - and nothing may be left behind),
+	// then a complete list of similar width is encoded; several times over, widths on both sides of 16, 256, 4096
+	{
+		r := c.rnd.Derive(210)
+		leaf := func(i int) *ref.Item {
+			switch i % 4 {
+			case 0:
+				return &ref.Item{Kind: ref.U1, Slots: []ref.Slot{{Uint: uint64(i % 251)}}}
+			case 1:
+				return &ref.Item{Kind: ref.A, Str: []byte(fmt.Sprintf("e%d", i))}
+			case 2:
+				return &ref.Item{Kind: ref.L, Children: []*ref.Item{{Kind: ref.BOOLEAN, Slots: []ref.Slot{{Uint: uint64(i & 1)}}}}}
+			}
+			return &ref.Item{Kind: ref.I2, Slots: []ref.Slot{{Int: int64(i) - 7}, {Int: int64(-i)}}}
+		}
+		for _, w := range []int{1, 2, 3, 8, 15, 16, 17, 31, 32, 33, 64, 100, 255, 256, 257, 1000, 4095, 4096, 4097} {
+			for rep := 0; rep < 3; rep++ {
+				hole := w - 1
+				if rep == 1 {
+					hole = w / 2
+				} else if rep == 2 {
+					hole = r.Intn(w)
+				}
+				tpl := &ref.Item{Kind: ref.L}
+				full := &ref.Item{Kind: ref.L}
+				for i := 0; i < w; i++ {
+					if i == hole {
+						tpl.Children = append(tpl.Children, &ref.Item{Kind: ref.U2, Slots: []ref.Slot{{Uint: 1}, {Var: fmt.Sprintf("hole%d", w)}}})
+					} else {
+						tpl.Children = append(tpl.Children, leaf(i))
+					}
+					full.Children = append(full.Children, leaf(i+rep+1))
+				}
+				var none, nested, got []byte
+				o := real.Try(func() {
+					none = real.Build(tpl).ToBytes()
+					nested = real.Build(&ref.Item{Kind: ref.L, Children: []*ref.Item{leaf(1), tpl, leaf(2)}}).ToBytes()
+					got = real.Build(full).ToBytes()
+				})
+				c.NoteBulk(1, 1)
+				c.Class("item/complete-list-encoded-after-an-incomplete-one")
+				cs := c02Case{Op: "incomplete-then-complete", Item: full}
+				if o.Panicked {
+					c.Violation("C02/item/constructor-refused-valid/L", o.String(), cs)
+				} else if len(none) != 0 || len(nested) != 0 {
+					c.Violation("C02/item/partial-bytes-for-an-incomplete-list", fmt.Sprintf("a list of %d elements with an unfilled variable in element %d encodes to %d bytes (%x..), nested in another list to %d", w, hole, len(none), clipB(none), len(nested)), cs)
+				} else if want := ref.Encode(full); !bytes.Equal(got, want) {
+					c.Violation("C02/item/bytes-differ/L/after-an-incomplete-list", fmt.Sprintf("a complete list of %d elements encoded right after an incomplete one: %d bytes %x, reference %d bytes %x", w, len(got), clipB(got), len(want), clipB(want)), cs)
+				}
+			}
+		}
+	}
 	// an empty item (the placeholder the parsers use on errors) as a list element has no SECS-II encoding: a tree that
 	// holds one encodes to nothing, and so does a message around it - never to a header without its text
 	for _, build := range []func() ast.ItemNode{
@@ -822,7 +874,7 @@ func runC02(c *ctx) {
 			c.Violation("C02/msg/partial-bytes-for-a-tree-with-an-empty-item", fmt.Sprintf("item bytes %x, message bytes %x", clipB(itemBytes), clipB(msgBytes)), c02Case{Op: "empty-item"})
 		}
 	}
-	c.Required = []string{"item/text-at-the-limit-by-fill", "empty-item-inside-a-list", "msg/length>=2^24", "msg/session-unset-again", "msg/complete", "msg/+vars", "msg/+optW", "msg/+nosession", "f4/finite-patterns", "f4round/in-range", "f4round/overflow", "lenbytes=3/A", "lenbytes=2/L", "item/decoded-from-another-spelling", "item/derived-by-several-fills", "item/derived-by-a-partial-fill", "item/sml-sourced-long-decimal", "item/zero-sign-neighbours", "item/float-from-integer-values", "msg/sml-sourced-header-glued-to-a-comment"}
+	c.Required = []string{"item/complete-list-encoded-after-an-incomplete-one", "item/text-at-the-limit-by-fill", "empty-item-inside-a-list", "msg/length>=2^24", "msg/session-unset-again", "msg/complete", "msg/+vars", "msg/+optW", "msg/+nosession", "f4/finite-patterns", "f4round/in-range", "f4round/overflow", "lenbytes=3/A", "lenbytes=2/L", "item/decoded-from-another-spelling", "item/derived-by-several-fills", "item/derived-by-a-partial-fill", "item/sml-sourced-long-decimal", "item/zero-sign-neighbours", "item/float-from-integer-values", "msg/sml-sourced-header-glued-to-a-comment"}
 }
 
 func replayC02(c *ctx, raw json.RawMessage) {
